@@ -12,8 +12,8 @@ PROPERTY = 'C05'
 LEVEL = 'exploration'
 TECHNIQUE = 'runtime monitoring: per-session reference decoding of the OPEN on the wire tap and of the answer to the peer OPEN, measured hold time from the timestamped tap, AS_PATH probe through handler.update_received; histories of 0-4 earlier sessions before the observed one'
 RULE = ('configurations (local/remote AS over the 2-/4-octet boundary incl. iBGP, configured hold, 2^5 capability switches x add-path x '
-        'vpnv4 ext-nexthop) x peer OPENs (version, AS field / 4-octet capability, hold incl. 0,1,2, capability sets incl. none) x histories '
-        'of 0-4 earlier sessions (accepted, rejected for hold/AS/version, capability-poor, capability-rich): the OPEN of every connection is '
+        'vpnv4 ext-nexthop) x peer OPENs (version, AS field / 4-octet capability, hold incl. 0,1,2, capability sets incl. none and well-formed ones without a table entry, My-AS field disagreeing with the capability) x histories '
+        'of 0-4 earlier sessions (accepted, rejected for hold/AS/version, capability-poor, capability-rich; ended in OpenConfirm or Established by close, reset, five NOTIFICATION codes, bad marker, stop/start, silence): the OPEN of every connection is '
         'decoded by the reference decoder and compared with the configuration and with the first OPEN of the world; the answer to the '
         'peer OPEN, the measured hold time and the AS_PATH decoding mode are compared with the policy; '
         'distinct = distinct (configuration, history shape, peer OPEN) triples')
